@@ -2573,3 +2573,82 @@ Section Theorems2.
                       code d next reqs signed Hrun x Hx).
   Qed.
 End Theorems2.
+
+(* the converse: where the full trace is defined, the sequential reading is, with the same calls and status *)
+Section Reading2.
+  Variable svc : string -> string -> string -> list json -> service_answer.
+  Variable init : string.
+  Variable ts ttl : N.
+  Notation nlin := (nlin svc init ts ttl).
+  Notation sread := (seq_eval (svc_answer svc) everything_known init ts ttl).
+
+  Lemma full_reading_defined : forall f me fr id i vs F,
+      nlin me f None fr id vs i = Some F -> nlinear init i = true -> no_uninit vs ->
+      exists cs e st, sread f (nenv vs) i = Out cs e st.
+  Proof.
+    induction f as [|f IH]; intros me fr id i vs F H L Hnu; [discriminate|].
+    destruct i; simpl in L; try discriminate; simpl in H; simpl seq_eval.
+    - (* call *)
+      apply andb_prop in L. destruct L as [L123 Lo]. apply andb_prop in L123. destruct L123 as [L12 La].
+      destruct (target_of init (t_peer t)) as [q|] eqn:Et; try discriminate.
+      destruct (t_service t) as [s| | | |] eqn:Es; try discriminate.
+      destruct (t_function t) as [fn| | | |] eqn:Ef; try discriminate.
+      rewrite (resolve_peer_target init vs _ _ Et). cbn [early resolve_str].
+      unfold ncall in H. destruct (SeqSem.resolve_args init ts ttl (nenv vs) args) as [js| | |]; try discriminate; cbn [early].
+      + cbn [everything_known negb]. unfold svc_answer, to_answer. cbn [an_code an_value].
+        destruct (negb (sa_ret_code (svc q s fn js) =? 0)%Z); [eauto|].
+        destruct (sa_parsed (svc q s fn js)); [|eauto]. destruct out; try discriminate; eauto.
+      + eauto.
+    - (* ap *)
+      destruct r as [v|v]; try discriminate.
+      destruct (SeqSem.resolve_ap init ts ttl (nenv vs) a) as [j| | |]; try discriminate; cbn [early]; eauto.
+    - (* seq *)
+      apply andb_prop in L. destruct L as [La Lb].
+      destruct (nlin me f None fr id vs i1) as [Fa|] eqn:Ea; try discriminate.
+      destruct (IH _ _ _ _ _ _ Ea La Hnu) as (csa & ea & sta & Esa). rewrite Esa. cbn [andthen].
+      destruct (reading_full svc init ts ttl f me fr id i1 vs csa ea sta La Hnu Esa) as (Fa' & EFa & A1 & A2 & A3 & Hia & Hnua & Nata).
+      rewrite Ea in EFa. inversion EFa; subst Fa'. clear EFa.
+      pose proof (nlin_facts _ _ _ _ _ _ _ _ _ _ _ _ Ea) as (_ & _ & _ & _ & _ & FA6 & _).
+      rewrite A2 in H. destruct sta; try congruence; eauto.
+      rewrite (FA6 eq_refl), A3 in H. unfold nthen in H.
+      destruct (nlin me f None fr id (vars ea) i2) as [Fb|] eqn:Eb; try discriminate.
+      rewrite (nenv_eta ea Hia). destruct (IH _ _ _ _ _ _ Eb Lb Hnua) as (csb & eb & stb & Esb). rewrite Esb. cbn [more]. eauto.
+    - (* xor *)
+      apply andb_prop in L. destruct L as [La Lb].
+      destruct (nlin me f None fr id vs i1) as [Fa|] eqn:Ea; try discriminate.
+      destruct (IH _ _ _ _ _ _ Ea La Hnu) as (csa & ea & sta & Esa). rewrite Esa. cbn [andthen].
+      destruct (reading_full svc init ts ttl f me fr id i1 vs csa ea sta La Hnu Esa) as (Fa' & EFa & A1 & A2 & A3 & Hia & Hnua & Nata).
+      rewrite Ea in EFa. inversion EFa; subst Fa'. clear EFa.
+      pose proof (nlin_facts _ _ _ _ _ _ _ _ _ _ _ _ Ea) as (_ & _ & _ & _ & _ & FA6 & _).
+      rewrite A2 in H. destruct sta; try congruence; eauto.
+      rewrite (FA6 eq_refl), A3 in H. unfold nthen in H.
+      destruct (nlin me f None fr id (vars ea) i2) as [Fb|] eqn:Eb; try discriminate.
+      rewrite (nenv_eta ea Hia). destruct (IH _ _ _ _ _ _ Eb Lb Hnua) as (csb & eb & stb & Esb). rewrite Esb. cbn [more]. eauto.
+    - (* match *)
+      apply andb_prop in L. destruct L as [L12 Lb].
+      destruct (SeqSem.resolve_value init ts ttl (nenv vs) l) as [lv| | |]; try discriminate; cbn [early]; [|eauto].
+      destruct (SeqSem.resolve_value init ts ttl (nenv vs) r) as [rv| | |]; try discriminate; cbn [early]; [|eauto].
+      destruct (Bool.eqb (json_eqb lv rv) true); [|eauto].
+      destruct (IH _ _ _ _ _ _ H Lb Hnu) as (csb & eb & stb & Esb). rewrite Esb. cbn [more]. eauto.
+    - (* mismatch *)
+      apply andb_prop in L. destruct L as [L12 Lb].
+      destruct (SeqSem.resolve_value init ts ttl (nenv vs) l) as [lv| | |]; try discriminate; cbn [early]; [|eauto].
+      destruct (SeqSem.resolve_value init ts ttl (nenv vs) r) as [rv| | |]; try discriminate; cbn [early]; [|eauto].
+      destruct (Bool.eqb (json_eqb lv rv) false); [|eauto].
+      destruct (IH _ _ _ _ _ _ H Lb Hnu) as (csb & eb & stb & Esb). rewrite Esb. cbn [more]. eauto.
+    - destruct f0; try discriminate. eauto.
+    - eauto.
+    - eauto.
+  Qed.
+
+  Theorem full_is_reading : full_is_reading_stmt svc init ts ttl.
+  Proof.
+    intros s fuel F L HF. unfold full_trace in HF.
+    assert (Hnu : no_uninit []) by (intros m; simpl; discriminate).
+    destruct (full_reading_defined fuel init None 0 s [] F HF L Hnu) as (cs & e & st & Es).
+    destruct (reading_full svc init ts ttl fuel init None 0 s [] cs e st L Hnu Es) as (F' & EF & A1 & A2 & _).
+    rewrite HF in EF. inversion EF; subst F'. exists e. split.
+    - unfold empty_env. change {| vars := []; iters := [] |} with (nenv []). rewrite Es, A1, A2. reflexivity.
+    - exact (proj1 (nlin_facts _ _ _ _ _ _ _ _ _ _ _ _ HF)).
+  Qed.
+End Reading2.
